@@ -12,7 +12,7 @@
            Outside the guard at W = 32 lay finding F8 (repaired): [C03_w32_former_witness_repaired]. *)
 From Coq Require Import NArith ZArith List Bool.
 From SFV Require Import Base.Bytes Msgpack.Tree Gen.CodesGen Write.Writer Write.WSpec Write.Grammar
-  Write.WGuard Write.WriteProofs Write.GrammarProofs Base.RsPrelude Gen.StateGen Write.StateGenEq.
+  Write.WGuard Write.WriteProofs Write.GrammarProofs Base.RsPrelude Gen.StateGen Write.StateGenEq Gen.WriteCtxGen Write.WriteCtxGenEq Ctx.Interner Ctx.InternerProofs.
 Import ListNotations.
 Open Scope N_scope.
 
@@ -175,3 +175,71 @@ Theorem C03_code_agree_meaning : forall s stk g h,
   | _, _ => False
   end.
 Proof. intros. reflexivity. Qed.
+
+(** * [Writer.step] IS the code of provider/src/write.rs (tie by translation, T8)
+
+    [Gen/WriteCtxGen.v] is regenerated on every run from provider/src/write.rs: all ten methods of
+    [impl Context], calling the regenerated state machine ([Gen/StateGen.v]), the regenerated interner
+    ([Gen/InternGen.v]) and the rmp encoders ([Msgpack/Rmp.v]).  [R gc c] relates a generated context to a
+    model context (same state up to [conv], same stack up to order, same output bytes, interner holding exactly
+    [interned c]).  For every related pair, every operation, every pointer width and both overflow modes the
+    translated Rust and [step] agree ([agree_ctx]: same status; accepted -> related new contexts; rejected ->
+    BOTH contexts exactly as they were; or both panic).  For a string write the provider hands back a
+    destination inside its (possibly just reallocated) output buffer and the glue copies there ([apply_copy]);
+    for an interned string the provider copies itself.  The size hypotheses say that the output fits the
+    address space. *)
+Theorem C03_code_ctx_scalars : forall W trap gc c, R gc c ->
+  (forall v, agree_ctx gc c (Context_write_bool W trap gc (negb (v =? 0))) (step W trap c (OBool v))) /\
+  agree_ctx gc c (Context_write_nil W trap gc) (step W trap c ONull) /\
+  (forall z, agree_ctx gc c (Context_write_i32 W trap gc z) (step W trap c (OI32 z))) /\
+  (forall b, agree_ctx gc c (Context_write_f64 W trap gc b) (step W trap c (OF64 b))).
+Proof.
+  intros W trap gc c HR. repeat split; intros.
+  - apply gen_ctx_write_bool; exact HR.
+  - apply gen_ctx_write_nil; exact HR.
+  - apply gen_ctx_write_i32; exact HR.
+  - apply gen_ctx_write_f64; exact HR.
+Qed.
+
+Theorem C03_code_ctx_containers : forall W trap gc c, R gc c ->
+  (forall len, agree_ctx gc c (Context_start_object W trap gc len) (step W trap c (OStartObj len))) /\
+  (forall len, agree_ctx gc c (Context_start_array W trap gc len) (step W trap c (OStartArr len))) /\
+  agree_ctx gc c (Context_finish_object W trap gc) (step W trap c OFinObj) /\
+  agree_ctx gc c (Context_finish_array W trap gc) (step W trap c OFinArr).
+Proof.
+  intros W trap gc c HR. repeat split; intros.
+  - apply gen_ctx_start_object; exact HR.
+  - apply gen_ctx_start_array; exact HR.
+  - apply gen_ctx_finish_object; exact HR.
+  - apply gen_ctx_finish_array; exact HR.
+Qed.
+
+Theorem C03_code_ctx_string : forall W trap gc c s, R gc c ->
+  lenN (out c) + 5 + lenN s < 2 ^ W ->
+  agree_str gc c s (Context_allocate_utf8_str W trap gc (lenN s)) (step W trap c (OStr s)).
+Proof. exact gen_ctx_allocate_utf8_str. Qed.
+
+Theorem C03_code_ctx_interned_string : forall W trap gc c id, R gc c ->
+  (forall s, nthN (interned c) id = Some s -> lenN (out c) + 5 + lenN s < 2 ^ W) ->
+  lenN (concat (interned c)) < 2 ^ W ->
+  agree_ctx gc c (Context_write_interned_utf8_str W trap gc id) (step W trap c (OIStr id)).
+Proof. exact gen_ctx_write_interned. Qed.
+
+(** the relations, spelled out *)
+Theorem C03_code_ctx_meaning : forall gc c g h s gs,
+  (R gc c <-> StateGenEq.conv (Context_write_state gc) = wstate c /\ conv_stack (Context_write_parent_state_stack gc) = wstack c /\
+              Context_output_bytes gc = out c /\ wf_i (unconv_i (Context_string_interner gc)) (interned c)) /\
+  (agree_ctx gc c g h <-> match g, h with
+     | GOk (gc', code), (c', WOk) => code = WR_Ok /\ R gc' c'
+     | GOk (gc', code), (c', WErr code') => code = code' /\ code <> WR_Ok /\ gc' = gc /\ c' = c
+     | GPanic _, (_, WPanic _) => True
+     | _, _ => False end) /\
+  (agree_str gc c s gs h <-> match gs, h with
+     | GOk (gc', (code, dst)), (c', WOk) => code = WR_Ok /\ exists gc'', apply_copy gc' dst s = GOk gc'' /\ R gc'' c'
+     | GOk (gc', (code, dst)), (c', WErr code') => code = code' /\ code <> WR_Ok /\ gc' = gc /\ c' = c /\ dst = None
+     | GPanic _, (_, WPanic _) => True
+     | _, _ => False end).
+Proof.
+  intros. split; [|split; reflexivity].
+  split; [intros [H1 H2 H3 H4]; auto|intros (H1 & H2 & H3 & H4); constructor; assumption].
+Qed.
